@@ -37,6 +37,27 @@ let rec seq_n (i : int) (n : int) : n list = if i >= n then [] else n_of_int i :
 
 let cs l = coq_to_bytes l
 
+(* extraction cross-check (bin/coqreplay_c19.py): with ORACLE_DUMP=<file> the values computed by the
+   EXTRACTED model are appended to that file as decimal numbers, before any comparison *)
+let dump_chan = match Sys.getenv_opt "ORACLE_DUMP" with
+  | Some p when p <> "" -> Some (open_out_gen [Open_append; Open_creat] 0o644 p)
+  | _ -> None
+let dump id (nums : string list) = match dump_chan with
+  | Some ch -> Printf.fprintf ch "%s %s\n" id (String.concat " " nums)
+  | None -> ()
+let si = string_of_int
+let sig_ (l : n list) : string list = (* length and byte sum *)
+  let s = coq_to_bytes l in [si (String.length s); si (String.fold_left (fun a c -> a + Char.code c) 0 s)]
+let zsig (z : z) : string list = match z with Z0 -> ["0"; "0"] | Zpos p -> ["0"; dec_of_pos p] | Zneg p -> ["1"; dec_of_pos p]
+let page_sig (m : (n list * z option) option go) : string list =
+  match m with
+  | Panic -> ["2"; "0"; "0"; "0"; "0"; "0"]
+  | OutOfFuel -> ["3"; "0"; "0"; "0"; "0"; "0"]
+  | Ok None -> ["0"; "0"; "0"; "0"; "0"; "0"]
+  | Ok (Some (items, nx)) ->
+    ["1"; si (List.length items); si (List.fold_left (fun a x -> a + int_of_n x) 0 items)]
+    @ (match nx with None -> ["0"; "0"; "0"] | Some z -> "1" :: zsig z)
+
 (* ---------------------------------------------------------------- structpb values *)
 let rec parse_pb (v : value) : pbval =
   match as_list v with
@@ -72,7 +93,7 @@ let next_string (o : z option) (suffix : string) : string =
 let is_error_class c = c = 1 || c = 2 || c = 4
 let inconclusive c = c = 3 || c = 10
 
-let f _id vs =
+let f cid vs =
   match vs with
   | [I "1"; cl; _; _] ->
     let c = as_int cl in
@@ -97,6 +118,7 @@ let f _id vs =
     else begin
       let listing = seq_n 0 (if n < 0 then 0 else n) in
       let m = read_request_mem listing (if hasps then psz else Z0) tok in
+      dump cid ("2" :: page_sig m @ [si (if negative_offset_token tok then 1 else 0)]);
       match m with
       | Panic -> "DIFF model inconsistency: the request-level read cannot panic (no_panic_read_request)"
       | OutOfFuel -> "DIFF model out of fuel"
@@ -124,6 +146,7 @@ let f _id vs =
     let n = as_int n and c = as_int cl in
     let from = as_cbytes from in
     let m = read_page_mem (seq_n 0 n) (z_of_dec (as_dec size)) from in
+    dump cid ("3" :: page_sig m);
     (match m with
      | Panic ->
        (* only a negative page size (with a non-negative offset) is left: outside the API's reach *)
@@ -150,6 +173,10 @@ let f _id vs =
     else begin
       let pv = parse_pb v in
       let nodes = as_int nodes in
+      (if nodes > 1500 then dump cid (["4"; "2"] @ sig_ (enc_pb pv) @ [si (int_of_nat (pb_size pv)); "0"])
+       else match pb_write_i pv with
+         | Ok r -> dump cid (["4"; "1"] @ sig_ r.wr_bytes @ [si (List.length r.wr_visits); si (int_of_nat r.wr_maxh)])
+         | _ -> dump cid ["4"; "0"; "0"; "0"; "0"; "0"]);
       if nodes > 1500 then
         (* deep or wide value: the instrumented walk keeps every path (quadratic memory); compare
            the bytes with the recursive specification, which walk_eq_recursive proves equal *)
@@ -181,6 +208,10 @@ let f _id vs =
       let so = (match split_object_go s with Ok (x, y) -> Some (cs x, cs y) | _ -> None) in
       let sr = (match split_object_relation_go s with Ok (x, y) -> Some (cs x, cs y) | _ -> None) in
       let fj = (match from_user_parts_go (as_cbytes a) (as_cbytes b) (as_cbytes c) with Ok x -> Some (cs x) | _ -> None) in
+      let os2 o = (match o with None -> ["0"; "0"; "0"; "0"; "0"] | Some (x, y) ->
+          ["1"; si (String.length x); si (String.fold_left (fun a c -> a + Char.code c) 0 x); si (String.length y); si (String.fold_left (fun a c -> a + Char.code c) 0 y)]) in
+      dump cid (["5"] @ (match up with None -> ["0"] | Some (x, y, z) -> ["1"; si (String.length x); si (String.length y); si (String.length z)])
+               @ os2 so @ os2 sr @ (match fj with None -> ["0"; "0"; "0"] | Some x -> ["1"; si (String.length x); si (String.fold_left (fun a c -> a + Char.code c) 0 x)]));
       let fst3 o = Option.map (fun (x, _, _) -> x) o and snd3 o = Option.map (fun (_, y, _) -> y) o
       and thd3 o = Option.map (fun (_, _, z) -> z) o in
       let checks = [
@@ -207,6 +238,8 @@ let f _id vs =
       else begin
         let rec chain d = if d <= 1 then Rose [] else Rose [chain (d - 1)] in
         let t = chain md in
+        dump cid ["6"; si (int_of_nat (wire_min t)); si (int_of_nat (rdepth t));
+                 (match struct_walk (nat_of_int (size / 2 + 1)) t with Ok d -> si (int_of_nat d) | _ -> "0")];
         if int_of_nat (wire_min t) <> 2 * (md - 1) then "DIFF wire_min of a chain is not 2 (depth - 1)"
         else match struct_walk (nat_of_int (size / 2 + 1)) t with
           | Ok d when int_of_nat d = md -> "OK"
@@ -219,7 +252,8 @@ let f _id vs =
     let types = List.map (fun t -> List.map parse_rw (as_list t)) (as_list abs) in
     let nodes = List.fold_left (fun a t -> List.fold_left (fun a r -> a + rw_count r) (a + 1) t) 0 types in
     let budget = 100000 in
-    let (res, _) = model_cost (nat_of_int (nodes + 8)) types (n_of_int budget) in
+    let (res, rem) = model_cost (nat_of_int (nodes + 8)) types (n_of_int budget) in
+    dump cid ["7"; (match res with HNo -> "0" | HCycle -> "1" | HErr -> "2" | HBudget -> "3"); dec_of_n rem];
     let expensive = (res = HBudget) in
     if c = 7 then
       (if expensive then
@@ -242,6 +276,8 @@ let f _id vs =
       let v = (match as_int kind with 0 -> PVError | 1 -> PVString | 2 -> PVStruct | _ -> PVRuntime) in
       let s = (match site with 0 -> SHandler | 1 -> STry | 2 -> SPipeline | 3 -> SEvaluate | _ -> SOther) in
       let fate = fate_of s v in
+      dump cid ["8"; (match fate with FError -> "0" | FInterceptor -> "1" | FDies -> "2");
+               (match recover_to_error v with Ok _ -> "1" | _ -> "0")];
       let crashed = (c = 9) || (not alive && c <> 7) in
       if crashed then
         (match fate with
